@@ -192,9 +192,14 @@ struct SqlFn {
     foreign: Vec<String>,
     writes: Vec<&'static str>,
     reads: bool,
+    calls_self: Vec<String>,
 }
 
-fn scan_fn(name: &str, lo: usize, hi: usize, block: &syn::Block, conn_idents: &[&str]) -> Result<SqlFn, String> {
+fn scan_fn(name: &str, lo: usize, hi: usize, block: &syn::Block) -> Result<SqlFn, String> {
+    // `conn` denotes the transaction's connection when the function binds it from `self.get_conn()`
+    // (`let Ok(conn) = self.get_conn() else ..`, `self.get_conn().map(|conn| ..)`) and touches no other source
+    let src = toks(block);
+    let conn_idents: &[&str] = if src.contains("self . get_conn ()") && !src.contains("self . pool") && !src.contains("Connection ::") { &["conn"] } else { &[] };
     let mut sc = BodyScan { facts: FnFacts::default(), conn_idents };
     sc.visit_block(block);
     let mut writes = vec![];
@@ -210,7 +215,7 @@ fn scan_fn(name: &str, lo: usize, hi: usize, block: &syn::Block, conn_idents: &[
     }
     writes.sort();
     writes.dedup();
-    Ok(SqlFn { name: name.to_string(), lo, hi, foreign: sc.facts.foreign, writes, reads })
+    Ok(SqlFn { name: name.to_string(), lo, hi, foreign: sc.facts.foreign, writes, reads, calls_self: sc.facts.calls_self })
 }
 
 fn lit_sqls(block: &syn::Block) -> Vec<String> {
@@ -232,7 +237,7 @@ fn crash_storage(repo: &str, out: &str) -> Result<String, String> {
                     if let syn::TraitItem::Fn(f) = ti {
                         if let Some(b) = &f.default {
                             let sp = f.span();
-                            fns.push(scan_fn(&f.sig.ident.to_string(), sp.start().line, sp.end().line, b, &[])?);
+                            fns.push(scan_fn(&f.sig.ident.to_string(), sp.start().line, sp.end().line, b)?);
                         }
                     }
                 }
@@ -260,9 +265,7 @@ fn crash_storage(repo: &str, out: &str) -> Result<String, String> {
                             }
                             (None, "new") | (None, "commit") => {}
                             (None, _) => {
-                                // `get_db_version_key` reaches the connection as `self.get_conn().map(|conn| conn.query_row(..))`
-                                let idents: &[&str] = if name == "get_db_version_key" { &["conn"] } else { &[] };
-                                fns.push(scan_fn(&name, sp.start().line, sp.end().line, &f.block, idents)?);
+                                fns.push(scan_fn(&name, sp.start().line, sp.end().line, &f.block)?);
                             }
                             (Some(o), _) => return Err(format!("unexpected `impl {o} for IdlSqliteWriteTransaction`")),
                         }
@@ -277,6 +280,35 @@ fn crash_storage(repo: &str, out: &str) -> Result<String, String> {
     }
     if fns.iter().filter(|f| !f.writes.is_empty()).count() < 10 {
         return Err(format!("only {} writing functions recognised in {rel}", fns.len()));
+    }
+    // a function that delegates to another one of these (`write_identry` -> `write_identries_raw`, `setup` ->
+    // `create_*`) inherits the callee's tables and connection; `closure[i]` = i and everything it can reach
+    let names: Vec<String> = fns.iter().map(|f| f.name.clone()).collect();
+    let mut closure: Vec<Vec<usize>> = (0..fns.len()).map(|i| vec![i]).collect();
+    loop {
+        let mut changed = false;
+        for i in 0..fns.len() {
+            let mut add = vec![];
+            for &j in &closure[i] {
+                for c in &fns[j].calls_self {
+                    if let Some(k) = names.iter().position(|n| n == c) {
+                        if !closure[i].contains(&k) && !add.contains(&k) {
+                            add.push(k);
+                        }
+                    }
+                }
+            }
+            if !add.is_empty() {
+                closure[i].extend(add);
+                changed = true;
+            }
+        }
+        if !changed {
+            break;
+        }
+    }
+    for c in closure.iter_mut() {
+        c.sort();
     }
     // ---- BEGIN / COMMIT ---------------------------------------------------------------------
     let newf = find_fn(&ast, "IdlSqliteWriteTransaction::new")?;
@@ -424,7 +456,7 @@ fn crash_storage(repo: &str, out: &str) -> Result<String, String> {
                         }
                         let mut ids = vec![];
                         for c in &v.0 {
-                            ids.push(idx_of(c)?);
+                            ids.extend(closure[idx_of(c)?].iter().copied());
                         }
                         ids.sort();
                         ids.dedup();
@@ -447,7 +479,7 @@ fn crash_storage(repo: &str, out: &str) -> Result<String, String> {
     let mut be_summary = vec![];
     let resolve_arc = |arc_fn: &str| -> Result<Vec<usize>, String> {
         let callees = arc_direct.get(arc_fn).ok_or(format!("`idlayer.{arc_fn}` does not reach the SQLite transaction directly"))?;
-        callees.iter().map(|c| idx_of(c)).collect()
+        callees.iter().map(|c| idx_of(c)).collect::<Result<Vec<usize>, String>>()
     };
     let bn = bcommit.block.stmts.len();
     for (i, st) in bcommit.block.stmts.iter().enumerate() {
@@ -537,12 +569,16 @@ fn crash_storage(repo: &str, out: &str) -> Result<String, String> {
     body += "/-- Every function that issues SQL on the write transaction: default methods of `trait IdlSqliteTransaction` and\nthe methods of `impl IdlSqliteWriteTransaction` (except `new` / `commit`), in source order. -/\n";
     body += "def sqliteFns : List SqlFn := [\n";
     for (i, f) in fns.iter().enumerate() {
+        let mut tw: Vec<&'static str> = closure[i].iter().flat_map(|j| fns[*j].writes.iter().copied()).collect();
+        tw.sort();
+        tw.dedup();
+        let foreign_any = closure[i].iter().any(|j| !fns[*j].foreign.is_empty());
         body += &format!(
             "  ⟨{}, {}, {}, [{}]⟩{} -- {} `{}`{}{}\n",
             f.lo,
             f.hi,
-            if f.foreign.is_empty() { ".txn" } else { ".other" },
-            f.writes.iter().map(|t| format!(".{t}")).collect::<Vec<_>>().join(", "),
+            if !foreign_any { ".txn" } else { ".other" },
+            tw.iter().map(|t| format!(".{t}")).collect::<Vec<_>>().join(", "),
             if i + 1 == fns.len() { "" } else { "," },
             i,
             f.name,
